@@ -89,7 +89,7 @@ static void exact_double(FILE *o, long double x, int isld) {
 }
 
 int main(int argc, char **argv) {
-    region_t R, U;
+    region_t R, U, F8, FW;
     char *NOZ;
     long id;
     char fn[40];
@@ -103,6 +103,8 @@ int main(int argc, char **argv) {
     h_install_handlers();
     R = h_region(8);
     U = h_region(1);        /* string arguments without a terminator: flush against its inaccessible page */
+    F8 = h_region(1);       /* the format string: its terminator is the last element in front of an inaccessible page */
+    FW = h_region(1);
     NOZ = h_nozone();
     {
         FILE *cin = fdopen(dup(0), "r");
@@ -115,8 +117,8 @@ int main(int argc, char **argv) {
             double D[8];
             long double LD[2];
             int ni = 0, nd = 0, nl = 0;
-            char fmt8[400];
-            wchar_t fmtw[400];
+            char *fmt8;
+            wchar_t *fmtw;
             char inp8[400];
             wchar_t inpw[400];
             char *dest = NULL;
@@ -169,6 +171,8 @@ int main(int argc, char **argv) {
             wide = is_wide(fn);
             scan = is_scan(fn);
             setlocale(LC_ALL, loc ? "C.UTF-8" : "C");
+            fmt8 = F8.rw + F8.rwlen - (nfmt + 1);
+            fmtw = (wchar_t *)(FW.rw + FW.rwlen) - (nfmt + 1);
             for (i = 0; i < nfmt; i++) { fmt8[i] = (char)fmtv[i]; fmtw[i] = (wchar_t)fmtv[i]; }
             fmt8[nfmt] = 0; fmtw[nfmt] = 0;
             for (i = 0; i < ninp; i++) { inp8[i] = (char)inpv[i]; inpw[i] = (wchar_t)inpv[i]; }
